@@ -21,7 +21,7 @@ import numpy as np
 from tjverif import gen, mcmc, monitors as M, oracle
 
 
-def check_plot_offsets(ctx, rng, TheJoker, prior, data, samples, dspec, ns, du, desc, cls):
+def check_plot_offsets(ctx, rng, TheJoker, prior, data, samples, dspec, ns, du, desc, cls, ps_):
     """plot_rv_curves(apply_mean_v0_offset=True) must subtract mean(dv0_k) from exactly the epochs of the survey that the
     likelihood ties to dv0_k (list: the k-th further source; dict: the k-th key in sorted order), nothing from the
     reference survey's. Read back from the artists the call puts on the axes."""
@@ -47,6 +47,29 @@ def check_plot_offsets(ctx, rng, TheJoker, prior, data, samples, dspec, ns, du, 
         col_of = [srt.index(k) for k in dspec["keys"]]          # survey j -> offset column (0 = reference)
     else:
         col_of = list(range(ns))
+    # "posteriors are those of the correctly labelled data": each returned row's linear parameters, read by NAME, are a draw of
+    # N(a, A) of the correctly labelled union (squared Mahalanobis distance is chi^2 with <= 8 degrees of freedom: > 300 never)
+    import astropy.units as u_
+    lin_c = gen.linear_problem(dspec, ps_, tuple(col_of))
+    for r in range(len(post)):
+        P_d = float(post["P"][r].to_value(u_.day)); e_ = float(post["e"][r])
+        om_ = float(post["omega"][r].to_value(u_.rad)); M0_ = float(post["M0"][r].to_value(u_.rad))
+        s_ = float(post["s"][r].to_value(gen.U(du)))
+        z_ = oracle.z_column(lin_c, P_d, e_, om_, M0_)
+        ref_ = oracle.marginal(lin_c, z_, P_d, e_, s_, want_post=True)
+        if ref_["tol"] > 1e-4 or np.linalg.cond(ref_["A"]) > 1e10:
+            continue
+        x_ = [float(post["K"][r].to_value(gen.U(du))), float(post["v0"][r].to_value(gen.U(du)))]
+        x_ += [float(post["dv0_%d" % k][r].to_value(gen.U(du))) for k in range(1, ns)]
+        x_ += [float(post["v%d" % i_][r].to_value(gen.U(du) / u_.day ** i_)) for i_ in range(1, ps_["poly_trend"])]
+        dx_ = np.asarray(x_) - ref_["a"]
+        q_ = float(dx_ @ np.linalg.solve(ref_["A"], dx_))
+        ctx.evaluations += 1
+        ctx.maxi("max_mahalanobis2_of_posterior_row", q_)
+        if q_ > 300:
+            ctx.violation("posterior-row-not-of-the-labelled-data", "a returned row's (K, v0, dv0_*, v1..) read by name is %.3g (squared "
+                          "Mahalanobis) away from the conditional posterior of the correctly labelled union" % q_, dict(desc, row=r, x=x_))
+            break
     want = yv.copy()
     for j in range(ns):
         if col_of[j] > 0:
@@ -221,7 +244,7 @@ def run(ctx):
                                       dict(desc, moved_from_survey=k))
             # ---- the plotting helper that removes each survey's mean offset from its own epochs (anchored in plot.py)
             if chrono and ns <= 4 and i % 4 == 2 and not ties:
-                check_plot_offsets(ctx, rng, TheJoker, prior, data, samples, dspec, ns, du, desc, cls)
+                check_plot_offsets(ctx, rng, TheJoker, prior, data, samples, dspec, ns, du, desc, cls, ps)
             if i % 60 == 0:
                 ctx.sample(dict(desc, ll_head=ll[:3]))
         except Exception as e:
